@@ -727,6 +727,37 @@ theorem primeRaised_mem {src : Src} {bound : Nat} : ∀ {ks before : List Kind} 
       obtain ⟨rfl, rfl⟩ := hk
       exact mem_primeErrs_cons (ih ⟨b, k', a, ys, rfl, hys, by simpa [List.append_assoc] using hd⟩)
 
+/-- every window of the chain gets its `size - 1` items (or the end) from the first `N` source items -/
+def PrimeAnswered (src : Src) (N : Nat) (before ks : List Kind) : Prop :=
+  ∀ b k a, ks = b ++ k :: a → (det (before ++ b) src N).answers k.primeCount = true
+
+theorem PrimeAnswered.cons {src : Src} {N : Nat} {before ks : List Kind} {k : Kind}
+    (h0 : (det before src N).answers k.primeCount = true) (h : PrimeAnswered src N (before ++ [k]) ks) :
+    PrimeAnswered src N before (k :: ks) := by
+  intro b k' a hk
+  cases b with
+  | nil =>
+    simp only [List.nil_append, List.cons.injEq] at hk
+    obtain ⟨rfl, rfl⟩ := hk
+    simpa using h0
+  | cons k0 b =>
+    simp only [List.cons_append, List.cons.injEq] at hk
+    obtain ⟨rfl, rfl⟩ := hk
+    simpa [List.append_assoc] using h b k' a rfl
+
+/-- once a prefix trace is terminated, every window further up is answered -/
+theorem primeAnswered_of_not_more {src : Src} {N : Nat} {before ks : List Kind}
+    (h : (det before src N).term.isMore = false) : PrimeAnswered src N before ks := by
+  intro b k a _
+  have : (det (before ++ b) src N).term.isMore = false := by
+    rcases hm : (det (before ++ b) src N).term.isMore with _ | _
+    · rfl
+    · simp only [det, pipeTr_append] at hm
+      have := pipeTr_isMore b _ hm
+      simp only [det] at h
+      rw [h] at this; exact absurd this (by simp)
+  simp [Tr.answers, this]
+
 /-- `glomit`, against the trace semantics.  The last component bounds the position by the
     reference scan when the source has a known length `bound`. -/
 theorem construct_sound (src : Src) (fuel bound : Nat) :
@@ -736,18 +767,21 @@ theorem construct_sound (src : Src) (fuel bound : Nat) :
     | .ok sts' pos' => pos ≤ pos' ∧
         (∀ m, pos ≤ m → m < pos' → PrimeNeeded src before ks m) ∧
         (∀ N, pos' ≤ N → denoteF src sts' pos' N = det (before ++ ks) src N) ∧
-        (SrcBound src bound → pos ≤ p → pos ≤ bound → pos' ≤ bound ∧ pos' ≤ primeScan src bound before ks p)
+        (SrcBound src bound → pos ≤ p → pos ≤ bound → pos' ≤ bound ∧ pos' ≤ primeScan src bound before ks p) ∧
+        (∀ N, pos' ≤ N → PrimeAnswered src N before ks)
     | .err e pos' => pos ≤ pos' ∧
         (∀ m, pos ≤ m → m < pos' → PrimeNeeded src before ks m) ∧
         (∀ N, pos' ≤ N → PrimeRaised src before ks e N) ∧
-        (SrcBound src bound → pos ≤ p → pos ≤ bound → pos' ≤ bound ∧ pos' ≤ primeScan src bound before ks p)
+        (SrcBound src bound → pos ≤ p → pos ≤ bound → pos' ≤ bound ∧ pos' ≤ primeScan src bound before ks p) ∧
+        (∀ N, pos' ≤ N → PrimeAnswered src N before ks)
     | .oof => True := by
   intro ks
   induction ks with
   | nil =>
     intro before acc pos p hinv
     simp only [construct, primeScan, List.append_nil]
-    exact ⟨Nat.le_refl _, fun m hm hm' => by omega, hinv, fun _ hp hpb => ⟨hpb, hp⟩⟩
+    exact ⟨Nat.le_refl _, fun m hm hm' => by omega, hinv, fun _ hp hpb => ⟨hpb, hp⟩,
+      fun N _ b k a h => by simp at h⟩
   | cons k ks ih =>
     intro before acc pos p hinv
     simp only [construct]
@@ -795,8 +829,8 @@ theorem construct_sound (src : Src) (fuel bound : Nat) :
       cases construct src fuel ks acc' p1 with
       | ok sts' pos' =>
         intro this
-        obtain ⟨hle2, hl2, hA2, hbd2⟩ := this
-        refine ⟨Nat.le_trans hle hle2, ?_, ?_, ?_⟩
+        obtain ⟨hle2, hl2, hA2, hbd2, hpa2⟩ := this
+        refine ⟨Nat.le_trans hle hle2, ?_, ?_, ?_, ?_⟩
         · intro m hm hm'
           rcases Nat.lt_or_ge m p1 with hlt | hge
           · exact ⟨[], k, ks, rfl, by simpa using hBabs m hm hlt⟩
@@ -805,23 +839,31 @@ theorem construct_sound (src : Src) (fuel bound : Nat) :
           rw [hA2 N hN]; simp [List.append_assoc]
         · intro hb hp hpb
           exact hbd2 hb (scan hb hp p1 hle hBabs) (bnd hb hpb p1 hle hBabs)
+        · intro N hN
+          have hN1 : p1 ≤ N := Nat.le_trans hle2 hN
+          refine PrimeAnswered.cons ?_ (hpa2 N hN)
+          rw [← hinv N (Nat.le_trans hle hN1)]; exact (hA N hN1).2
       | err e pos' =>
         intro this
-        obtain ⟨hle2, hl2, hr2, hbd2⟩ := this
-        refine ⟨Nat.le_trans hle hle2, ?_, fun N hN => (hr2 N hN).cons, ?_⟩
+        obtain ⟨hle2, hl2, hr2, hbd2, hpa2⟩ := this
+        refine ⟨Nat.le_trans hle hle2, ?_, fun N hN => (hr2 N hN).cons, ?_, ?_⟩
         · intro m hm hm'
           rcases Nat.lt_or_ge m p1 with hlt | hge
           · exact ⟨[], k, ks, rfl, by simpa using hBabs m hm hlt⟩
           · exact (hl2 m hge hm').cons
         · intro hb hp hpb
           exact hbd2 hb (scan hb hp p1 hle hBabs) (bnd hb hpb p1 hle hBabs)
+        · intro N hN
+          have hN1 : p1 ≤ N := Nat.le_trans hle2 hN
+          refine PrimeAnswered.cons ?_ (hpa2 N hN)
+          rw [← hinv N (Nat.le_trans hle hN1)]; exact (hA N hN1).2
       | oof => intro _; trivial
     | err e p1 =>
       intro hpr
       obtain ⟨hle, hB, hA⟩ := hpr
       have hBabs := lazyAbs p1 hB
       simp only [primeScan]
-      refine ⟨hle, ?_, ?_, ?_⟩
+      refine ⟨hle, ?_, ?_, ?_, ?_⟩
       · intro m hm hm'
         exact ⟨[], k, ks, rfl, by simpa using hBabs m hm hm'⟩
       · intro N hN
@@ -830,6 +872,10 @@ theorem construct_sound (src : Src) (fuel bound : Nat) :
         exact ⟨[], k, ks, ys, rfl, hys, by simpa using hd⟩
       · intro hb hp hpb
         exact ⟨bnd hb hpb p1 hle hBabs, Nat.le_trans (scan hb hp p1 hle hBabs) (le_primeScan _ _ _ _ _)⟩
+      · intro N hN
+        obtain ⟨ys, hys, hd⟩ := hA N hN
+        rw [hinv N (Nat.le_trans hle hN)] at hd
+        exact primeAnswered_of_not_more (by rw [hd]; rfl)
     | oof => intro _; trivial
 
 /-! ### `it = glom(target, spec); list(islice(it, k))` -/
@@ -845,6 +891,8 @@ def TraceOK (kinds : List Kind) (src : Src) (k : Nat) (out : RunOut) : Prop :=
 
 /-- what a `take k` run establishes, for every source (finite or not) -/
 structure TakeSpec (kinds : List Kind) (src : Src) (k : Nat) (out : RunOut) : Prop where
+  /-- every window got its items (or the end) from the prefix pulled -/
+  primed : ∀ N, out.pulls ≤ N → PrimeAnswered src N [] kinds
   /-- every source position pulled was needed: by a window being primed, or because the
       shorter prefix does not determine `k` outputs nor the end of the stream -/
   needed : ∀ m, m < out.pulls → PrimeNeeded src [] kinds m ∨ (det kinds src m).answers k = false
@@ -866,7 +914,7 @@ theorem runTake_spec (src : Src) (fuel : Nat) (kinds : List Kind) (k : Nat)
   | ok sts pos =>
     intro hfin hc
     simp only at hfin hc ⊢
-    obtain ⟨_, hprime, hden, _⟩ := hc 0
+    obtain ⟨_, hprime, hden, _, hpa⟩ := hc 0
     simp only [List.nil_append] at hden
     obtain ⟨hle, hB, ys, hys, hA⟩ := takeK_sound src fuel k sts pos []
     simp only [List.nil_append] at hys
@@ -883,13 +931,13 @@ theorem runTake_spec (src : Src) (fuel : Nat) (kinds : List Kind) (k : Nat)
       | exhausted => intro _ h; exact h
       | raised e => intro _ h; exact h
       | oof => intro h; exact absurd rfl h
-    refine ⟨?_, Or.inl htrace, ?_⟩
+    refine ⟨fun N hN => hpa N (Nat.le_trans hle hN), ?_, Or.inl htrace, ?_⟩
     · intro m hm
       rcases Nat.lt_or_ge m pos with hlt | hge
       · exact Or.inl (hprime m (Nat.zero_le _) hlt)
       · exact Or.inr (hBabs m hge hm)
     · intro bound hb
-      obtain ⟨_, _, _, hbd⟩ := hc bound
+      obtain ⟨_, _, _, hbd, _⟩ := hc bound
       obtain ⟨hpb, hscan⟩ := hbd hb (Nat.le_refl _) (Nat.zero_le _)
       have hmb : ∀ m, pos ≤ m → m < (takeK src fuel k sts pos []).1.pulls → m < bound :=
         fun m hm hm' => hb _ (pipeTr_isMore kinds _ (answers_false_isMore (hBabs m hm hm')))
@@ -900,10 +948,10 @@ theorem runTake_spec (src : Src) (fuel : Nat) (kinds : List Kind) (k : Nat)
   | err e pos =>
     intro _ hc
     simp only at hc ⊢
-    obtain ⟨_, hprime, hraised, _⟩ := hc 0
-    refine ⟨fun m hm => Or.inl (hprime m (Nat.zero_le _) hm), Or.inr ⟨rfl, e, rfl, hraised⟩, ?_⟩
+    obtain ⟨_, hprime, hraised, _, hpa⟩ := hc 0
+    refine ⟨fun N hN => hpa N hN, fun m hm => Or.inl (hprime m (Nat.zero_le _) hm), Or.inr ⟨rfl, e, rfl, hraised⟩, ?_⟩
     intro bound hb
-    obtain ⟨_, _, hr, hbd⟩ := hc bound
+    obtain ⟨_, _, hr, hbd, _⟩ := hc bound
     obtain ⟨hpb, hscan⟩ := hbd hb (Nat.le_refl _) (Nat.zero_le _)
     exact ⟨hpb, Or.inl ⟨e, rfl, rfl, hr bound hpb, hscan⟩⟩
   | oof => intro hfin _; exact absurd rfl hfin
@@ -1936,10 +1984,6 @@ theorem prime_terminates (src : Src) (N : Nat) : ∀ (n : Nat) (st : StageSt) (b
       simp only [prime, hpoll]; rw [hF1 fuel hf]
     | oof => exact absurd rfl hr
 
-/-- every window of the chain gets its `size - 1` items (or the end) from the first `N` source items -/
-def PrimeAnswered (src : Src) (N : Nat) (before ks : List Kind) : Prop :=
-  ∀ b k a, ks = b ++ k :: a → (det (before ++ b) src N).answers k.primeCount = true
-
 theorem construct_terminates (src : Src) (N : Nat) : ∀ (ks before : List Kind) (acc : List StageSt) (pos : Nat),
     (∀ k ∈ ks, k.wf = true) → (∀ M, pos ≤ M → denoteF src acc pos M = det before src M) → pos ≤ N →
     PrimeAnswered src N before ks →
@@ -2149,6 +2193,7 @@ theorem drain_terminates (src : Src) (N : Nat) : ∀ (L : Nat) (sts : List Stage
 
 /-- what an `all()` run establishes -/
 structure AllSpec (kinds : List Kind) (src : Src) (out : RunOut) : Prop where
+  primed : ∀ N, out.pulls ≤ N → PrimeAnswered src N [] kinds
   /-- every source position pulled lies in a prefix that leaves the end of the stream open,
       or a window was being primed -/
   needed : ∀ m, m < out.pulls → PrimeNeeded src [] kinds m ∨ (det kinds src m).term.isMore = true
@@ -2174,7 +2219,7 @@ theorem runAll_spec (src : Src) (fuel : Nat) (kinds : List Kind)
   | ok sts pos =>
     intro hfin hc
     simp only at hfin hc ⊢
-    obtain ⟨_, hprime, hden, _⟩ := hc 0
+    obtain ⟨_, hprime, hden, _, hpa⟩ := hc 0
     simp only [List.nil_append] at hden
     obtain ⟨hle, hB, ys, hys, hA⟩ := drain_sound src fuel fuel sts pos []
     simp only [List.nil_append] at hys
@@ -2195,13 +2240,13 @@ theorem runAll_spec (src : Src) (fuel : Nat) (kinds : List Kind)
       | exhausted => intro _ h; exact h
       | raised e => intro _ h; exact h
       | oof => intro h; exact absurd rfl h
-    refine ⟨?_, Or.inl htrace, ?_⟩
+    refine ⟨fun N hN => hpa N (Nat.le_trans hle hN), ?_, Or.inl htrace, ?_⟩
     · intro m hm
       rcases Nat.lt_or_ge m pos with hlt | hge
       · exact Or.inl (hprime m (Nat.zero_le _) hlt)
       · exact Or.inr (hBabs m hge hm)
     · intro bound hb
-      obtain ⟨_, _, _, hbd⟩ := hc bound
+      obtain ⟨_, _, _, hbd, _⟩ := hc bound
       obtain ⟨hpb, hscan⟩ := hbd hb (Nat.le_refl _) (Nat.zero_le _)
       have hmb : ∀ m, pos ≤ m → m < (drain src fuel fuel sts pos []).pulls → m < bound :=
         fun m hm hm' => hb _ (pipeTr_isMore kinds _ (hBabs m hm hm'))
@@ -2214,10 +2259,10 @@ theorem runAll_spec (src : Src) (fuel : Nat) (kinds : List Kind)
   | err e pos =>
     intro _ hc
     simp only at hc ⊢
-    obtain ⟨_, hprime, hraised, _⟩ := hc 0
-    refine ⟨fun m hm => Or.inl (hprime m (Nat.zero_le _) hm), Or.inr ⟨e, rfl, hraised⟩, ?_⟩
+    obtain ⟨_, hprime, hraised, _, hpa⟩ := hc 0
+    refine ⟨fun N hN => hpa N hN, fun m hm => Or.inl (hprime m (Nat.zero_le _) hm), Or.inr ⟨e, rfl, hraised⟩, ?_⟩
     intro bound hb
-    obtain ⟨_, _, hr, hbd⟩ := hc bound
+    obtain ⟨_, _, hr, hbd, _⟩ := hc bound
     obtain ⟨hpb, hscan⟩ := hbd hb (Nat.le_refl _) (Nat.zero_le _)
     exact ⟨hpb, Or.inl ⟨e, rfl, hr bound hpb, hscan⟩⟩
   | oof => intro hfin _; exact absurd rfl hfin
@@ -2432,6 +2477,7 @@ def FirstMatches (key : Fn) (d : Tr) (o : FirstOut) (c : Nat) : Prop :=
 
 /-- what a `first(key)` run establishes -/
 structure FirstSpec (kinds : List Kind) (src : Src) (key : Fn) (o : FirstOut) (pulls : Nat) : Prop where
+  primed : ∀ N, pulls ≤ N → PrimeAnswered src N [] kinds
   result : (∃ c, (∀ N, pulls ≤ N → FirstMatches key (det kinds src N) o c) ∧
       ∀ m, m < pulls → PrimeNeeded src [] kinds m ∨ (det kinds src m).answers c = false) ∨
     (∃ e, o = .raised e ∧ (∀ N, pulls ≤ N → PrimeRaised src [] kinds e N) ∧
@@ -2453,7 +2499,7 @@ theorem runFirst_spec (src : Src) (fuel : Nat) (kinds : List Kind) (key : Fn)
   | ok sts pos =>
     intro hfin hc
     simp only at hfin hc ⊢
-    obtain ⟨_, hprime, hden, _⟩ := hc 0
+    obtain ⟨_, hprime, hden, _, hpa⟩ := hc 0
     simp only [List.nil_append] at hden
     obtain ⟨hle, c, hB, hA⟩ := firstOf_sound src fuel key fuel sts pos 0
     have hBabs : ∀ m, pos ≤ m → m < (firstOf src fuel key fuel sts pos).2 →
@@ -2470,13 +2516,13 @@ theorem runFirst_spec (src : Src) (fuel : Nat) (kinds : List Kind) (key : Fn)
       | default => intro _ h; exact h
       | raised e => intro _ h; simpa using h
       | oof => intro h _; exact h
-    refine ⟨Or.inl ⟨c, hmatch, ?_⟩, ?_⟩
+    refine ⟨fun N hN => hpa N (Nat.le_trans hle hN), Or.inl ⟨c, hmatch, ?_⟩, ?_⟩
     · intro m hm
       rcases Nat.lt_or_ge m pos with hlt | hge
       · exact Or.inl (hprime m (Nat.zero_le _) hlt)
       · exact Or.inr (hBabs m hge hm)
     · intro bound hb
-      obtain ⟨_, _, _, hbd⟩ := hc bound
+      obtain ⟨_, _, _, hbd, _⟩ := hc bound
       obtain ⟨hpb, hscan⟩ := hbd hb (Nat.le_refl _) (Nat.zero_le _)
       have hmb : ∀ m, pos ≤ m → m < (firstOf src fuel key fuel sts pos).2 → m < bound :=
         fun m hm hm' => hb _ (pipeTr_isMore kinds _ (answers_false_isMore (hBabs m hm hm')))
@@ -2491,10 +2537,10 @@ theorem runFirst_spec (src : Src) (fuel : Nat) (kinds : List Kind) (key : Fn)
   | err e pos =>
     intro _ hc
     simp only at hc ⊢
-    obtain ⟨_, hprime, hraised, _⟩ := hc 0
-    refine ⟨Or.inr ⟨e, rfl, hraised, fun m hm => hprime m (Nat.zero_le _) hm⟩, ?_⟩
+    obtain ⟨_, hprime, hraised, _, hpa⟩ := hc 0
+    refine ⟨fun N hN => hpa N hN, Or.inr ⟨e, rfl, hraised, fun m hm => hprime m (Nat.zero_le _) hm⟩, ?_⟩
     intro bound hb
-    obtain ⟨_, _, hr, hbd⟩ := hc bound
+    obtain ⟨_, _, hr, hbd, _⟩ := hc bound
     obtain ⟨hpb, hscan⟩ := hbd hb (Nat.le_refl _) (Nat.zero_le _)
     exact ⟨hpb, Or.inl ⟨e, rfl, hr bound hpb, hscan⟩⟩
   | oof => intro hfin _; exact absurd hfin id
@@ -2553,5 +2599,166 @@ theorem runFirst_terminates (src : Src) (N : Nat) (kinds : List Kind) (key : Fn)
     rw [hF1 fuel hf]
     trivial
   | oof => simp [Built.isOof] at hb
+
+/-! ## Part E: builders on a heap -/
+
+/-- every `Iter` instance points at an allocated stack list -/
+def BHeap.wf (h : BHeap) : Prop := ∀ (i : Nat) (o : IterObj), h.iters[i]? = some o → o.stackAddr < h.lists.length
+
+theorem BHeap.addOp_wf (fwd : Bool) (h : BHeap) (hw : h.wf) (self : Nat) (e : Entry) :
+    (h.addOp fwd self e).1.wf := by
+  unfold BHeap.wf at hw ⊢
+  unfold BHeap.addOp
+  cases hs : h.iters[self]? with
+  | none => exact hw
+  | some o =>
+    intro i o' hi
+    simp only at hi ⊢
+    rw [List.getElem?_append] at hi
+    split at hi
+    · have := hw i o' hi; simp; omega
+    · next hge =>
+      have : i - h.iters.length = 0 := by
+        rcases Nat.eq_zero_or_pos (i - h.iters.length) with h0 | hpos
+        · exact h0
+        · rw [List.getElem?_eq_none (by simp; omega)] at hi; simp at hi
+      simp [this] at hi
+      subst hi
+      simp
+
+/-- **frame**: `_add_op` leaves every existing spec exactly as it was -/
+theorem BHeap.addOp_view_old (fwd : Bool) (h : BHeap) (hw : h.wf) (self : Nat) (e : Entry) (i : Nat)
+    (hi : i < h.iters.length) : (h.addOp fwd self e).1.view i = h.view i := by
+  unfold BHeap.wf at hw
+  unfold BHeap.addOp
+  cases hs : h.iters[self]? with
+  | none => rfl
+  | some o =>
+    simp only [BHeap.view]
+    rw [List.getElem?_append_left hi]
+    cases ho : h.iters[i]? with
+    | none => rfl
+    | some o' =>
+      have := hw i o' ho
+      simp [BHeap.readStack, List.getElem?_append_left this]
+
+/-- the spec `_add_op` returns: same subspec, the entry in front of the old stack -/
+theorem BHeap.addOp_view_new (fwd : Bool) (h : BHeap) (_hw : h.wf) (self : Nat) (e : Entry) (it : Iter)
+    (hv : h.view self = some it) :
+    (h.addOp fwd self e).2 = h.iters.length ∧
+    (h.addOp fwd self e).1.view (h.addOp fwd self e).2 = some (it.addOp fwd e) := by
+  unfold BHeap.addOp
+  simp only [BHeap.view] at hv
+  cases hs : h.iters[self]? with
+  | none => simp [hs] at hv
+  | some o =>
+    simp only [hs, Option.map_some, Option.some.injEq] at hv
+    subst hv
+    simp [BHeap.view, BHeap.readStack, Iter.addOp]
+
+theorem BHeap.addOp_iters_length (fwd : Bool) (h : BHeap) (self : Nat) (e : Entry) :
+    h.iters.length ≤ (h.addOp fwd self e).1.iters.length := by
+  unfold BHeap.addOp
+  cases h.iters[self]? <;> simp
+
+/-- for every history of builder calls, an existing spec stays what it was -/
+theorem BHeap.history_view (fwd : Bool) : ∀ (calls : List (Nat × Entry)) (h : BHeap), h.wf →
+    ∀ i, i < h.iters.length → (h.history fwd calls).view i = h.view i := by
+  intro calls
+  induction calls with
+  | nil => intro h _ i _; rfl
+  | cons c calls ih =>
+    intro h hw i hi
+    obtain ⟨j, e⟩ := c
+    simp only [BHeap.history]
+    rw [ih _ (BHeap.addOp_wf fwd h hw j e) i (Nat.lt_of_lt_of_le hi (BHeap.addOp_iters_length fwd h j e))]
+    exact BHeap.addOp_view_old fwd h hw j e i hi
+
+theorem BHeap.newIter_wf (h : BHeap) (hw : h.wf) (sub : BaseFn) (s : Option V) : (h.newIter sub s).1.wf := by
+  unfold BHeap.wf at hw ⊢
+  intro i o hi
+  simp only [BHeap.newIter] at hi ⊢
+  rw [List.getElem?_append] at hi
+  split at hi
+  · have := hw i o hi; simp; omega
+  · have : i - h.iters.length = 0 := by
+      rcases Nat.eq_zero_or_pos (i - h.iters.length) with h0 | hpos
+      · exact h0
+      · rw [List.getElem?_eq_none (by simp; omega)] at hi; simp at hi
+    simp [this] at hi
+    subst hi
+    simp
+
+/-! ### Invoke -/
+
+def IHeap.wf (h : IHeap) : Prop := ∀ (i : Nat) (o : List ICall × Nat), h.objs[i]? = some o → o.2 < h.dicts.length
+
+theorem IHeap.call_wf (h : IHeap) (hw : h.wf) (self : Nat) (c : ICall) : (h.call self c).1.wf := by
+  unfold IHeap.wf at hw ⊢
+  unfold IHeap.call
+  cases hs : h.objs[self]? with
+  | none => exact hw
+  | some o =>
+    obtain ⟨args, da⟩ := o
+    intro i o' hi
+    simp only at hi ⊢
+    rw [List.getElem?_append] at hi
+    split at hi
+    · have := hw i o' hi; simp; omega
+    · have : i - h.objs.length = 0 := by
+        rcases Nat.eq_zero_or_pos (i - h.objs.length) with h0 | hpos
+        · exact h0
+        · rw [List.getElem?_eq_none (by simp; omega)] at hi; simp at hi
+      simp [this] at hi
+      subst hi
+      simp
+
+theorem IHeap.call_view_old (h : IHeap) (hw : h.wf) (self : Nat) (c : ICall) (i : Nat)
+    (hi : i < h.objs.length) : (h.call self c).1.view i = h.view i := by
+  unfold IHeap.wf at hw
+  unfold IHeap.call
+  cases hs : h.objs[self]? with
+  | none => rfl
+  | some o =>
+    obtain ⟨args, da⟩ := o
+    simp only [IHeap.view]
+    rw [List.getElem?_append_left hi]
+    cases ho : h.objs[i]? with
+    | none => rfl
+    | some o' =>
+      have := hw i o' ho
+      simp [List.getElem?_append_left this]
+
+theorem IHeap.call_view_new (h : IHeap) (_hw : h.wf) (self : Nat) (c : ICall) (inv : Invoke)
+    (hv : h.view self = some inv) :
+    (h.call self c).1.view (h.call self c).2 = some (inv.call c) := by
+  unfold IHeap.call
+  simp only [IHeap.view] at hv
+  cases hs : h.objs[self]? with
+  | none => simp [hs] at hv
+  | some o =>
+    obtain ⟨args, da⟩ := o
+    simp only [hs, Option.map_some, Option.some.injEq] at hv
+    subst hv
+    simp [IHeap.view, Invoke.call]
+
+theorem IHeap.call_objs_length (h : IHeap) (self : Nat) (c : ICall) :
+    h.objs.length ≤ (h.call self c).1.objs.length := by
+  unfold IHeap.call
+  cases hs : h.objs[self]? with
+  | none => simp
+  | some o => obtain ⟨args, da⟩ := o; simp
+
+theorem IHeap.history_view : ∀ (calls : List (Nat × ICall)) (h : IHeap), h.wf →
+    ∀ i, i < h.objs.length → (h.history calls).view i = h.view i := by
+  intro calls
+  induction calls with
+  | nil => intro h _ i _; rfl
+  | cons c calls ih =>
+    intro h hw i hi
+    obtain ⟨j, e⟩ := c
+    simp only [IHeap.history]
+    rw [ih _ (IHeap.call_wf h hw j e) i (Nat.lt_of_lt_of_le hi (IHeap.call_objs_length h j e))]
+    exact IHeap.call_view_old h hw j e i hi
 
 end Glom.C17
